@@ -232,20 +232,32 @@ def check(model, rep, tier):
             'the live-out of a compound statement is the union of the live-in '
             'of *all* its statement successors', facts, line=blo.node.lineno,
             witness='zero-iteration loop followed by a read')
-  ENTRY = {'visit_If': 'node.test', 'visit_For': 'node.iter',
-           'visit_While': 'node.test', 'visit_Try': 'node.body[0]',
-           'visit_ExceptHandler': 'node.body[0]', 'visit_With': 'node.items[0]'}
+  ENTRY = {'visit_If': '.test', 'visit_For': '.iter',
+           'visit_While': '.test', 'visit_Try': '.body[0]',
+           'visit_ExceptHandler': '.body[0]', 'visit_With': '.items[0]'}
   for h, entry in ENTRY.items():
     m = ta.methods.get(h)
     ok = m is not None
+    facts = {}
     if ok:
-      src = core.norm(m.node)
-      ok = ('return self._block_statement_live_in(node, %s)' % entry) in src and (
-          h == 'visit_With' or 'node = self._block_statement_live_out(node)' in src) \
-          and 'node = self.generic_visit(node)' in src
+      # unconditional calls of the handler (helpers that are new are already
+      # expanded; whether a call's value is used, returned or dropped is
+      # immaterial: the annotations are side effects on the node)
+      p = m.params()[0]
+      calls = []
+      for st in m.node.body:
+        if isinstance(st, (ast.If, ast.For, ast.While, ast.Try)):
+          continue
+        calls += [c for c in ast.walk(st) if isinstance(c, ast.Call)]
+      texts = [core.norm(c) for c in calls]
+      facts = {'calls': texts}
+      ok = ('self._block_statement_live_in(%s, %s%s)' % (p, p, entry)) in texts and (
+          h == 'visit_With' or ('self._block_statement_live_out(%s)' % p) in texts) \
+          and ('self.generic_visit(%s)' % p) in texts
     rep.check(ok, 'LV-BLOCK', '%s:%s:entry-node' % (LV, h),
-              'live-in of %s must be read at its entry node (%s) and its '
-              'live-out recorded' % (h[6:], entry), line=m.node.lineno if m else None)
+              'live-in of %s must be read at its entry node (node%s) and its '
+              'live-out recorded' % (h[6:], entry), facts,
+              line=m.node.lineno if m else None)
   vis = ta.methods['visit']
   ok = pat.has(vis.node, 'anno.setanno(%s, anno.Static.LIVE_VARS_IN, '
                'frozenset(self.current_analyzer.in_[_C_]))' % vis.params()[0])
